@@ -57,6 +57,29 @@ func (c *ConnRec) WaitLen(n int, timeout time.Duration) ([]byte, bool) {
 	return append([]byte(nil), c.buf...), len(c.buf) >= n
 }
 
+// TakeN waits until n bytes are buffered, removes them from the record and returns them. If they
+// do not arrive it returns what is there (without removing it) and false.
+func (c *ConnRec) TakeN(n int, timeout time.Duration) ([]byte, bool) {
+	deadline := time.Now().Add(timeout)
+	timer := time.AfterFunc(timeout, func() {
+		c.mu.Lock()
+		c.cond.Broadcast()
+		c.mu.Unlock()
+	})
+	defer timer.Stop()
+	c.mu.Lock()
+	defer c.mu.Unlock()
+	for len(c.buf) < n && !c.eof && time.Now().Before(deadline) {
+		c.cond.Wait()
+	}
+	if len(c.buf) < n {
+		return append([]byte(nil), c.buf...), false
+	}
+	out := append([]byte(nil), c.buf[:n]...)
+	c.buf = append(c.buf[:0:0], c.buf[n:]...)
+	return out, true
+}
+
 func (c *ConnRec) Bytes() []byte {
 	c.mu.Lock()
 	defer c.mu.Unlock()
@@ -237,6 +260,29 @@ func (p *UDPPeer) WaitCount(n int, timeout time.Duration) ([]Datagram, bool) {
 		p.cond.Wait()
 	}
 	return append([]Datagram(nil), p.dgs...), len(p.dgs) >= n
+}
+
+// TakeOne waits for the oldest datagram not yet taken, removes it and returns it.
+func (p *UDPPeer) TakeOne(timeout time.Duration) ([]byte, bool) {
+	deadline := time.Now().Add(timeout)
+	timer := time.AfterFunc(timeout, func() {
+		p.mu.Lock()
+		p.cond.Broadcast()
+		p.mu.Unlock()
+	})
+	defer timer.Stop()
+	p.mu.Lock()
+	defer p.mu.Unlock()
+	for len(p.dgs) == 0 && time.Now().Before(deadline) {
+		p.cond.Wait()
+	}
+	if len(p.dgs) == 0 {
+		return nil, false
+	}
+	d := p.dgs[0].Data
+	p.dgs[0] = Datagram{}
+	p.dgs = p.dgs[1:]
+	return d, true
 }
 
 func (p *UDPPeer) Count() int {
